@@ -2,6 +2,8 @@ import PolyVerif.Model.PolyJson
 import PolyVerif.Spec.JsonLossless
 import PolyVerif.Base.JsonRead
 import PolyVerif.Model.PolyJsonViews
+import PolyVerif.Spec.GbStrict
+import PolyVerif.Spec.GffLayout
 /-
 Driver for C15.  Cases (abstract) → requests (concrete), and the judge.
 
@@ -155,58 +157,83 @@ def pSlice {α : Type} (pe : P α) : P (Option (List α))
   | "[" :: ts => (pElems pe (ts.length + 1) ts []).map fun p => (some p.1, p.2)
   | _ => none
 
-def pFields {α : Type} (setField : String → α → P α) : Nat → List String → α → Option (α × List String)
+/-- skip one value of any shape (a scalar token, `nil`, `^ tok`, or a bracketed group) -/
+def skipValue : Nat → Nat → List String → Option (List String)
+  | 0, _, _ => none
+  | _ + 1, 0, t :: ts =>
+    if t == "{" || t == "[" || t == "<" then skipValue (ts.length + 1) 1 ts
+    else if t == "^" then some (ts.drop 1)
+    else some ts
+  | f + 1, depth + 1, t :: ts =>
+    if t == "{" || t == "[" || t == "<" then skipValue f (depth + 2) ts
+    else if t == "}" || t == "]" || t == ">" then (if depth == 0 then some ts else skipValue f depth ts)
+    else skipValue f (depth + 1) ts
+  | _, _, [] => none
+
+/-- the fields of a struct up to `}`.  `lax`: a field the model does not know (or cannot read) is skipped instead of
+failing the whole value — used to keep judging the known fields when the Go struct has gained a field -/
+def pFields {α : Type} (lax : Bool) (setField : String → α → P α) : Nat → List String → α → Option (α × List String)
   | 0, _, _ => none
   | _ + 1, "}" :: ts, acc => some (acc, ts)
   | f + 1, name :: ts, acc =>
     match setField name acc ts with
-    | some (acc', ts') => pFields setField f ts' acc'
-    | none => none
+    | some (acc', ts') => pFields lax setField f ts' acc'
+    | none =>
+      if lax then
+        match skipValue (ts.length + 1) 0 ts with
+        | some ts' => pFields lax setField f ts' acc
+        | none => none
+      else none
   | _, [], _ => none
 
-def pStruct {α : Type} (zero : α) (setField : String → α → P α) : P α
-  | "{" :: ts => pFields setField (ts.length + 1) ts zero
+def pStruct {α : Type} (lax : Bool) (zero : α) (setField : String → α → P α) : P α
+  | "{" :: ts => pFields lax setField (ts.length + 1) ts zero
   | _ => none
 
 def with_ {α β : Type} (p : P β) (k : β → α) : P α := fun ts => (p ts).map fun r => (k r.1, r.2)
 
 mutual
-def pLoc : Nat → P Location
+def pLoc (lax : Bool) : Nat → P Location
   | 0, _ => none
-  | f + 1, "{" :: ts => pLocFields f ts Location.zero
+  | f + 1, "{" :: ts => pLocFields lax f ts Location.zero
   | _, _ => none
-def pLocFields : Nat → List String → Location → Option (Location × List String)
+def pLocFields (lax : Bool) : Nat → List String → Location → Option (Location × List String)
   | 0, _, _ => none
   | _ + 1, "}" :: ts, acc => some (acc, ts)
   | n + 1, name :: ts, .mk s e c j f t subs =>
     match name with
-    | "Start" => match pInt ts with | some (v, ts) => pLocFields n ts (.mk v e c j f t subs) | none => none
-    | "End" => match pInt ts with | some (v, ts) => pLocFields n ts (.mk s v c j f t subs) | none => none
-    | "Complement" => match pBool ts with | some (v, ts) => pLocFields n ts (.mk s e v j f t subs) | none => none
-    | "Join" => match pBool ts with | some (v, ts) => pLocFields n ts (.mk s e c v f t subs) | none => none
-    | "FivePrimePartial" => match pBool ts with | some (v, ts) => pLocFields n ts (.mk s e c j v t subs) | none => none
-    | "ThreePrimePartial" => match pBool ts with | some (v, ts) => pLocFields n ts (.mk s e c j f v subs) | none => none
+    | "Start" => match pInt ts with | some (v, ts) => pLocFields lax n ts (.mk v e c j f t subs) | none => none
+    | "End" => match pInt ts with | some (v, ts) => pLocFields lax n ts (.mk s v c j f t subs) | none => none
+    | "Complement" => match pBool ts with | some (v, ts) => pLocFields lax n ts (.mk s e v j f t subs) | none => none
+    | "Join" => match pBool ts with | some (v, ts) => pLocFields lax n ts (.mk s e c v f t subs) | none => none
+    | "FivePrimePartial" => match pBool ts with | some (v, ts) => pLocFields lax n ts (.mk s e c j v t subs) | none => none
+    | "ThreePrimePartial" => match pBool ts with | some (v, ts) => pLocFields lax n ts (.mk s e c j f v subs) | none => none
     | "SubLocations" =>
       match ts with
-      | "nil" :: ts => pLocFields n ts (.mk s e c j f t none)
-      | "[" :: ts => match pLocList n ts [] with
-        | some (l, ts) => pLocFields n ts (.mk s e c j f t (some l))
+      | "nil" :: ts => pLocFields lax n ts (.mk s e c j f t none)
+      | "[" :: ts => match pLocList lax n ts [] with
+        | some (l, ts) => pLocFields lax n ts (.mk s e c j f t (some l))
         | none => none
       | _ => none
-    | _ => none
+    | _ =>
+      if lax then
+        match skipValue (ts.length + 1) 0 ts with
+        | some ts' => pLocFields lax n ts' (.mk s e c j f t subs)
+        | none => none
+      else none
   | _, [], _ => none
-def pLocList : Nat → List String → List Location → Option (List Location × List String)
+def pLocList (lax : Bool) : Nat → List String → List Location → Option (List Location × List String)
   | 0, _, _ => none
   | _ + 1, "]" :: ts, acc => some (acc.reverse, ts)
   | n + 1, ts, acc =>
-    match pLoc n ts with
-    | some (l, ts) => pLocList n ts (l :: acc)
+    match pLoc lax n ts with
+    | some (l, ts) => pLocList lax n ts (l :: acc)
     | none => none
 end
 
-def pLocation : P Location := fun ts => pLoc (ts.length + 1) ts
+def pLocation (lax : Bool) : P Location := fun ts => pLoc lax (ts.length + 1) ts
 
-def pLocus : P Locus := pStruct Locus.zero fun name l =>
+def pLocus (lax : Bool) : P Locus := pStruct lax Locus.zero fun name l =>
   match name with
   | "Name" => with_ pStr fun v => { l with name := v }
   | "SequenceLength" => with_ pStr fun v => { l with sequenceLength := v }
@@ -218,7 +245,7 @@ def pLocus : P Locus := pStruct Locus.zero fun name l =>
   | "Linear" => with_ pBool fun v => { l with linear := v }
   | _ => fun _ => none
 
-def pRef : P Reference := pStruct Reference.zero fun name r =>
+def pRef (lax : Bool) : P Reference := pStruct lax Reference.zero fun name r =>
   match name with
   | "Index" => with_ pStr fun v => { r with index := v }
   | "Authors" => with_ pStr fun v => { r with authors := v }
@@ -229,7 +256,7 @@ def pRef : P Reference := pStruct Reference.zero fun name r =>
   | "Range" => with_ pStr fun v => { r with range := v }
   | _ => fun _ => none
 
-def pMeta : P Meta := pStruct Meta.zero fun name m =>
+def pMeta (lax : Bool) : P Meta := pStruct lax Meta.zero fun name m =>
   match name with
   | "Name" => with_ pStr fun v => { m with name := v }
   | "GffVersion" => with_ pStr fun v => { m with gffVersion := v }
@@ -245,8 +272,8 @@ def pMeta : P Meta := pStruct Meta.zero fun name m =>
   | "Organism" => with_ pStr fun v => { m with organism := v }
   | "Source" => with_ pStr fun v => { m with source := v }
   | "Origin" => with_ pStr fun v => { m with origin := v }
-  | "Locus" => with_ pLocus fun v => { m with locus := v }
-  | "References" => with_ (pSlice pRef) fun v => { m with references := v }
+  | "Locus" => with_ (pLocus lax) fun v => { m with locus := v }
+  | "References" => with_ (pSlice (pRef lax)) fun v => { m with references := v }
   | "Other" => with_ pMap fun v => { m with other := v }
   | _ => fun _ => none
 
@@ -256,7 +283,7 @@ def pParent (root : S) : P (Option S)
   | "^" :: t :: ts => (pSTok t).map fun s => (some s, ts)
   | _ => none
 
-def pFeature (root : S) : P Feature := pStruct Feature.zero fun name f =>
+def pFeature (lax : Bool) (root : S) : P Feature := pStruct lax Feature.zero fun name f =>
   match name with
   | "Name" => with_ pStr fun v => { f with name := v }
   | "Source" => with_ pStr fun v => { f with source := v }
@@ -267,25 +294,31 @@ def pFeature (root : S) : P Feature := pStruct Feature.zero fun name f =>
   | "Attributes" => with_ pMap fun v => { f with attributes := v }
   | "GbkLocationString" => with_ pStr fun v => { f with gbkLocationString := v }
   | "Sequence" => with_ pStr fun v => { f with sequence := v }
-  | "SequenceLocation" => with_ pLocation fun v => { f with sequenceLocation := v }
+  | "SequenceLocation" => with_ (pLocation lax) fun v => { f with sequenceLocation := v }
   | "SequenceHash" => with_ pStr fun v => { f with sequenceHash := v }
   | "Description" => with_ pStr fun v => { f with description := v }
   | "SequenceHashFunction" => with_ pStr fun v => { f with sequenceHashFunction := v }
   | "ParentSequence" => with_ (pParent root) fun v => { f with parent := v }
   | _ => fun _ => none
 
-def pSeq : P Sequence := pStruct Sequence.zero fun name x =>
+def pSeq (lax : Bool) : P Sequence := pStruct lax Sequence.zero fun name x =>
   match name with
-  | "Meta" => with_ pMeta fun v => { x with metadata := v }
+  | "Meta" => with_ (pMeta lax) fun v => { x with metadata := v }
   | "Description" => with_ pStr fun v => { x with description := v }
   | "SequenceHash" => with_ pStr fun v => { x with sequenceHash := v }
   | "SequenceHashFunction" => with_ pStr fun v => { x with sequenceHashFunction := v }
   | "Sequence" => with_ pStr fun v => { x with sequence := v }
-  | "Features" => with_ (pSlice (pFeature x.sequence)) fun v => { x with features := v }
+  | "Features" => with_ (pSlice (pFeature lax x.sequence)) fun v => { x with features := v }
   | _ => fun _ => none
 
 def uncanon (text : String) : Option Sequence :=
-  match pSeq (text.splitOn " ") with
+  match pSeq false (text.splitOn " ") with
+  | some (x, []) => some x
+  | _ => none
+
+/-- the fields the model knows of a value that has fields it does not know -/
+def uncanonLax (text : String) : Option Sequence :=
+  match pSeq true (text.splitOn " ") with
   | some (x, []) => some x
   | _ => none
 
@@ -375,6 +408,14 @@ def isAscii (s : S) : Bool := asciiS s
 
 def linkedB (x : Sequence) : Bool := (x.features.getD []).all fun f => f.parent == some x.sequence
 
+/-- the value lies in the domain in which property C03 judges `genbank.Build` (named record, letters only, …) -/
+def viewDomGbk (x : Sequence) : Bool :=
+  let g := x.toGbk
+  Spec.GbStrict.wfSeqJ g && g.metadata.locus.name != []
+
+/-- … and property C14 `gff.Build` -/
+def viewDomGff (x : Sequence) : Bool := Spec.GffLayout.wfBuild x.toGff
+
 def classOf (x : Sequence) : String :=
   let fs := x.features.getD []
   let depth := fs.foldl (fun d f => max d (locDepth f.sequenceLocation)) 0
@@ -385,7 +426,7 @@ def classOf (x : Sequence) : String :=
       || fs.any (fun f => f.attributes == some [] || locHasEmpty f.sequenceLocation)
   let triv := fs.isEmpty && (allStrings x).all List.isEmpty
   let plain := (allStrings x).all fun t => t.all fun c => 32 ≤ c && c ≤ 126
-  (if triv then "triv:" else "") ++ (if fs.isEmpty then "nofeat" else s!"d{depth}") ++ (if plain then "/plain" else "") ++ (if nonAscii then "/u" else "")
+  (if triv then "triv:" else "") ++ (if fs.isEmpty then "nofeat" else s!"d{depth}") ++ (if plain then "/plain" else "") ++ (if plain && viewDomGbk x then "/gbkdom" else "") ++ (if plain && viewDomGff x then "/gffdom" else "") ++ (if nonAscii then "/u" else "")
     ++ (if hasNil then "/nil" else "") ++ (if hasEmpty then "/empty" else "") ++ (if linkedB x then "" else "/unlinked")
 
 /-! ### model outputs in the harness's text form -/
@@ -404,7 +445,12 @@ def getSeqLinkedSame (x : Sequence) (replies : String) : Bool :=
   else
     let rs := replies.splitOn ","
     rs.length == fs.length &&
-      (fs.zip rs).all fun p => p.1.parent != some x.sequence || p.2 == outcomeStr p.1.getSeq
+      (fs.zip rs).all fun p => p.1.parent != some x.sequence ||
+        -- what GetSequence does where the location does not evaluate (coordinates outside the sequence: the
+        -- model's `panic`) is property C02's subject, not compared here
+        (match p.1.getSeq with
+         | .ok s => p.2 == outcomeStr (.ok s)
+         | .panic => true)
 
 /-- clause 2 per feature, on the implementation's replies only: as many replies as the value has features, before
 and after, and every feature that was linked to `x` before reports after the round trip what it reported before -/
@@ -500,8 +546,16 @@ def judge (f out : List String) : Verdict :=
       -- domain of the writers' models: printable ASCII, no integer overflow in `Start + 1`
       let plain := ((allStrings x).all fun t => t.all fun c => 32 ≤ c && c ≤ 126)
         && (x.features.getD []).all (fun f => locNoOverflow f.sequenceLocation)
+      -- … and the domains in which C03 / C14 claim their writer models (outside them what Build prints is not
+      -- this check's subject: only that it prints the same before and after the round trip)
+      let gbkDom := plain && viewDomGbk x
+      let gffDom := plain && viewDomGff x
       match out with
-      | ["ok", jtext, crt, gsx, gsrt0, ftext, crd0, cfl0, gbx, gbrt0, gfx, gfrt0, crd20, crd30, crd40] =>
+      | ["ok", jtext, crt, gsx, gsrt0, ftext, crd0, cfl0, gbx, gbrt0, gfx, gfrt0, crd20, crd30, crd40, refl] =>
+        -- the harness's own field-by-field comparison (reflect: whatever fields the Go structs have) of x with the values
+        -- read back, in the order Parse(Marshal), Read(Write), the three read histories, Parse(model JSON)
+        let rf := refl.splitOn ","
+        let rfAt (i : Nat) : Bool := rf.getD i "" == "same"
         let crd2 := if crd20 == "=" then crt else crd20
         let crd3 := if crd30 == "=" then crt else crd30
         let crd4 := if crd40 == "=" then crt else crd40
@@ -522,7 +576,7 @@ def judge (f out : List String) : Verdict :=
           -- before the round trip only features that are linked to `x` report a sequence the property speaks
           -- about; what GetSequence does on a nil or foreign parent pointer is not compared
           ("getseq-before", !ascii || getSeqLinkedSame x gsx),
-          ("getseq-after", !ascii || gsrt == getSeqs mRt),
+          ("getseq-after", !ascii || getSeqLinkedSame mRt gsrt),
           -- byte for byte: the file polyjson.Write leaves (MarshalIndent) is the Lean printer's indented text
           ("write-text", !dom || writeSame),
           ("write", writeSame || sameJ (jsonOf ftext) mJ),  -- (`json_indent_roundtrip`)
@@ -531,21 +585,23 @@ def judge (f out : List String) : Verdict :=
           ("lean-json", cfl == cRt),
           ("build", gbx == gbrt && gfx == gfrt),
           -- the writers' views (Model/PolyJsonViews) under the C03 / C14 writer models are what the real writers print
-          ("gbk-view", !plain || gbx == "ok:" ++ String.ofList (GenbankBuild.build x.toGbk {})),
-          ("gff-view", !plain || gfx == "ok:" ++ String.ofList (Gff.build x.toGff))]
+          ("gbk-view", !gbkDom || gbx == "ok:" ++ String.ofList (GenbankBuild.build x.toGbk {})),
+          ("gff-view", !gffDom || gfx == "ok:" ++ String.ofList (Gff.build x.toGff))]
         let badCorr := corrParts.filter (!·.2)
         -- the property, on the implementation's outputs only
-        let valueOk (c : String) : Bool :=
-          match uncanon c with
-          | some r => Spec.Lossless.sameSeq r x && Spec.Lossless.relinkedOK r
-          | none => false
+        -- the spec relation on the fields the model knows (a value with further fields is read without them) AND the
+        -- harness's reflection verdict on all fields
+        let valueOk (c : String) (i : Nat) : Bool :=
+          rfAt i && (match (uncanon c).orElse (fun _ => uncanonLax c) with
+                     | some r => Spec.Lossless.sameSeq r x && Spec.Lossless.relinkedOK r
+                     | none => false)
         let specParts : List (String × Bool) := [
-          ("value after Parse(Marshal x)", valueOk crt),
-          ("value after Read(Write x) on a path that held a longer document", valueOk crd),
-          ("Read after the file was replaced by the caller (a longer document had been written and read)", valueOk crd2),
-          ("Read after the value of an earlier Read was edited in place", valueOk crd3),
-          ("Read after the file was moved into place with rename", valueOk crd4),
-          ("value after Parse(model-printed JSON)", valueOk cfl),
+          ("value after Parse(Marshal x)", valueOk crt 0),
+          ("value after Read(Write x) on a path that held a longer document", valueOk crd 1),
+          ("Read after the file was replaced by the caller (a longer document had been written and read)", valueOk crd2 2),
+          ("Read after the value of an earlier Read was edited in place", valueOk crd3 3),
+          ("Read after the file was moved into place with rename", valueOk crd4 4),
+          ("value after Parse(model-printed JSON)", valueOk cfl 5),
           ("every linked feature reports the same sequence (one reply per feature)", linkedReportsAgree x gsx gsrt),
           ("genbank.Build equal", gbx == gbrt),
           ("gff.Build equal", gfx == gfrt)]
@@ -578,7 +634,7 @@ def judge (f out : List String) : Verdict :=
       else { corr := true, judge := none, cls := pre ++ "skip:" ++ why, detail := "" }
     match out with
     | ["ok", st] => skipOr ("parser-" ++ st.drop 1)          -- the parser panicked on the generated file
-    | ["ok", "ok", cp, direct, jtext, crt, via0, gsp, gsrt0, viaFile0, viaPipe0, viaWrite0] =>
+    | ["ok", "ok", cp, direct, jtext, crt, via0, gsp, gsrt0, viaFile0, viaPipe0, viaWrite0, refl] =>
       let via := if via0 == "=" then direct else via0
       let gsrt := if gsrt0 == "=" then gsp else gsrt0
       let viaFile := if viaFile0 == "=" then direct else viaFile0
@@ -589,16 +645,21 @@ def judge (f out : List String) : Verdict :=
         -- NAMED EXCLUSION: a Go string that is not valid UTF-8 (e.g. a Latin-1 byte passed through by the
         -- parsers) is outside "non-ASCII text": encoding/json replaces such bytes by U+FFFD by design
         { corr := true, judge := none, cls := pre ++ "skip:invalid-utf8", detail := "" }
-      else match uncanon cp with
+      else
+      -- a value with fields the model does not know: the known fields are read and judged as always, all fields by the
+      -- harness's reflection verdict; the correspondence cannot hold (the model lacks the field) and says so
+      let known := (uncanon cp).isSome
+      match (uncanon cp).orElse (fun _ => uncanonLax cp) with
       | none =>
         { corr := false, judge := some false, cls := pre ++ "canon-unreadable",
-          detail := "the parser's value has a shape the model does not know (struct changed?)" }
+          detail := "the parser's value cannot be read at all" }
       | some x =>
         if direct.startsWith "!" then skipOr ("direct-build-" ++ direct.drop 1)
         else
         let mJ := toJ x
         let cRt := canon (polyjsonParse mJ)
         let corrParts : List (String × Bool) := [
+          ("model-knows-every-field", known),
           ("marshal-text", !inDomain x || jtext == toStr mJ.print),
           ("marshal", jtext == toStr mJ.print || sameJ (jsonOf jtext) mJ),
           ("parse", crt == cRt),
@@ -611,9 +672,10 @@ def judge (f out : List String) : Verdict :=
           ("same text via Write/Read", direct == viaFile),
           ("same text via MarshalIndent/Unmarshal", direct == viaPipe),
           ("the format's Write over a longer file leaves exactly Build's text", direct == viaWrite),
-          ("value", match uncanon crt with
-                    | some r => Spec.Lossless.sameSeq r x && Spec.Lossless.relinkedOK r
-                    | none => false),
+          ("value", refl == "same" &&
+                    (match (uncanon crt).orElse (fun _ => uncanonLax crt) with
+                     | some r => Spec.Lossless.sameSeq r x && Spec.Lossless.relinkedOK r
+                     | none => false)),
           ("every feature reports the same sequence (one reply per feature)",
             !gsp.startsWith "!" && gsp == gsrt && linkedReportsAgree x gsp gsrt),
           -- a plain file must give a non-empty text and a non-trivial value (a parser or writer that returns
